@@ -513,6 +513,12 @@ def judge(ctx, rec, m):
         ctx.violation("oracle-failure", "%s: verify exited 0 although %s" % (c["tag"], orc["why"]), d()); bad = True
     if orc["wellformed"] and orc["expect"] is not None and vfy.crashed(rc):
         ctx.violation("oracle-failure", "%s: verify neither succeeded nor failed cleanly on a well-formed torrent (exit %d)" % (c["tag"], rc), d()); bad = True
+    q = rec.get("quiet")
+    if q is not None:
+        ctx.count("also run with %s" % q["flag"])
+        if q["rc"] != rc or (q["rc"] == 0 and q["stderr_len"]) or q["stdout_len"]:
+            ctx.violation("oracle-failure", "%s: `imdl %s torrent verify ...` exits %d with %d bytes on standard error, without the flag the exit "
+                          "status is %d (%s)" % (c["tag"], q["flag"], q["rc"], q["stderr_len"], rc, orc["why"]), dict(d(), quiet_run=q)); bad = True
     # X4: the loader's verdict itself - the binary prints its second step line exactly when Metainfo::from_input accepted
     ml = rec.get("model_loader")
     if ml is None:
